@@ -630,6 +630,75 @@ def r_slices(ctx):
                                           "bytes long: the literal's content is shifted" % (fn, got[0], got[1], p[6:], d[0], d[1]))
 
 
+def r_cleanbytes(ctx, rid="C07.cleanbytes"):
+    import itertools
+    from absint import Interp, Return
+    maxlen = 5 if ctx.tier == "quick" else 6
+    ctx.rule(rid, "clean_prefixed_byte_string (the body of h'..' / b64'..' before decoding) returns the body without whitespace and without "
+                  "comments (`;` up to and including the next line break, or to the end), every other character once and in order — "
+                  "RFC 8610 section 3.1 — for every body up to length %d over {digit, letter, `;`, space, line break} plus multi-line "
+                  "targeted bodies (abstract evaluation of the function against an independent oracle)" % maxlen, floor=1)
+    f = ctx.facts
+    B = "src/pest_bridge.rs"
+    fis = [x for x in f.fns(B) if x.name == "clean_prefixed_byte_string" and not x.in_test and all(absint.default_cfg(c) for c in x.cfg)]
+    if not fis:
+        raise vf.Incomplete("clean_prefixed_byte_string not found")
+    fi = fis[0]
+    resolver = vf.new_fn_resolver(f, [B], cfg=absint.default_cfg)
+
+    def oracle(t):
+        out, i = [], 0
+        while i < len(t):
+            c = t[i]
+            if c == ";":
+                j = t.find("\n", i)
+                i = len(t) if j < 0 else j + 1
+                continue
+            if not c.isspace():
+                out.append(c)
+            i += 1
+        return "".join(out)
+
+    def run(t):
+        def on_call(kind, nm, node, a, recv):
+            if kind == "method" and nm == "chars" and isinstance(recv, tuple) and recv[:1] == ("str",):
+                return absint.PyIter([("str", c) for c in recv[1]])
+            return NotImplemented
+        it = Interp(env={"content": ("str", t)}, on_call=on_call)
+        it.resolve_fn = resolver
+        try:
+            v = it.block(fi.node["body"])
+        except Return as r:
+            v = r.v
+        if isinstance(v, tuple) and v[:1] == ("str",):
+            return v[1]
+        if isinstance(v, absint.MutList) and all(isinstance(c, tuple) and c[:1] == ("str",) for c in v):
+            return "".join(c[1] for c in v)
+        raise absint.Unknown("result %r" % (v,))
+    alpha = ["0", "a", ";", " ", "\n"]
+    targeted = ["0102\n0304 ; trailer\n0506", "01 ; c1\n02 ; c2\n03", "\n\n0a ;x\n0b", "00;\r\n11", "Ej ; note\nRWeA", "0;1;2\n3"]
+    n = 0
+    seen = set()
+    for t in itertools.chain(("".join(p) for k in range(maxlen + 1) for p in itertools.product(alpha, repeat=k)), targeted):
+        try:
+            got = run(t)
+        except absint.Unknown as e:
+            ctx.incomplete_msg(rid, "%r: %s" % (t, e))
+            continue
+        n += 1
+        want = oracle(t)
+        if got != want:
+            cls = "duplicates-data" if len(got) > len(want) else ("drops-data" if len(got) < len(want) else "reorders")
+            if cls not in seen:
+                seen.add(cls)
+                ctx.violation(rid, cls, B, fi.line, "clean_prefixed_byte_string(%r) evaluates to %r; without whitespace and comments the body is %r — the byte "
+                              "string denoted by the literal changes" % (t, got, want))
+    ctx.site(rid, "bodies", B, fi.line, {"evaluated": n, "alphabet": alpha, "max_len": maxlen})
+    ctx.extra["evaluations"] = ctx.extra.get("evaluations", 0) + n
+    if n < 3000:
+        ctx.incomplete_msg(rid, "only %d bodies evaluated" % n)
+
+
 def run(ctx):
     ctx.guarded("C07.intwrap", r_intwrap)
     ctx.guarded("C07.single", r_single)
@@ -639,3 +708,4 @@ def run(ctx):
     ctx.guarded("C07.slices", r_slices)
     ctx.guarded("C07.bytesrepr", r_bytesrepr)
     ctx.guarded("C07.unescape", r_unescape)
+    ctx.guarded("C07.cleanbytes", r_cleanbytes)
